@@ -7,6 +7,33 @@ import sys
 import traceback
 
 
+class WorkerFailure(RuntimeError):
+    """A case function raised.  `in_sut` is True when the innermost frame
+    that belongs to either the harness or the repository is repository code,
+    i.e. the system under test raised (a behaviour, not a harness bug)."""
+
+    def __init__(self, text, in_sut):
+        super().__init__(text)
+        self.in_sut = in_sut
+
+
+def classify_traceback(tb):
+    """True if the exception was raised from code of the system under test
+    (possibly below it, in numpy/h5py called by it)."""
+    import os
+    repo = os.environ.get("VERIF_REPO", "/repo").rstrip("/") + "/"
+    here = os.path.dirname(os.path.dirname(os.path.abspath(__file__))) + "/"
+    last = None
+    while tb is not None:
+        fn = tb.tb_frame.f_code.co_filename
+        if fn.startswith(repo):
+            last = "sut"
+        elif fn.startswith(here):
+            last = "harness"
+        tb = tb.tb_next
+    return last == "sut"
+
+
 def ncpu():
     try:
         n = len(os.sched_getaffinity(0))
@@ -38,7 +65,14 @@ def pmap(func, items, workers=None, init=None):
     if workers == 1 or len(items) <= 1:
         if init:
             init()
-        return [func(it) for it in items]
+        try:
+            return [func(it) for it in items]
+        except WorkerFailure:
+            raise
+        except Exception as e:
+            raise WorkerFailure("case function failed:\n"
+                                + traceback.format_exc(),
+                                classify_traceback(e.__traceback__))
     sys.stdout.flush()
     sys.stderr.flush()
     kids = []
@@ -57,8 +91,11 @@ def pmap(func, items, workers=None, init=None):
                 for i in range(w, len(items), workers):
                     out.append((i, func(items[i])))
                 data = pickle.dumps(("ok", out), protocol=4)
-            except BaseException:
-                data = pickle.dumps(("err", traceback.format_exc()), protocol=4)
+            except BaseException as e:
+                in_sut = isinstance(e, WorkerFailure) and e.in_sut or \
+                    classify_traceback(e.__traceback__)
+                data = pickle.dumps(("err", (traceback.format_exc(), in_sut)),
+                                    protocol=4)
                 code = 3
             try:
                 os.write(wfd, struct.pack("<Q", len(data)))
@@ -73,6 +110,7 @@ def pmap(func, items, workers=None, init=None):
         kids.append((pid, r))
     results = [None] * len(items)
     errors = []
+    sut_flags = []
     for pid, r in kids:
         head = _read_exact(r, 8)
         if head is None:
@@ -88,9 +126,12 @@ def pmap(func, items, workers=None, init=None):
                     for i, res in payload:
                         results[i] = res
                 else:
-                    errors.append(payload)
+                    errors.append(payload[0])
+                    sut_flags.append(payload[1])
         os.close(r)
         os.waitpid(pid, 0)
     if errors:
-        raise RuntimeError("worker failure:\n" + "\n".join(errors))
+        raise WorkerFailure("worker failure:\n" + "\n".join(errors),
+                            bool(sut_flags) and all(sut_flags)
+                            and len(sut_flags) == len(errors))
     return results
